@@ -4,11 +4,13 @@ import H2V.Lemmas.ConnFidPFnSend
   including the `poll_*` functions of the receive handles.  Hypotheses: `P.rpush k e` where an event
   is queued, `P.rpop k` where the application takes one, `P.rclear k` for `clear_recv_buffer`.
 -/
+set_option linter.unusedSectionVars false
 namespace H2V.Lemmas.ConnFidP
 open H2V H2V.Model H2V.Model.Conn H2V.Lemmas.ConnWakeP
 
 section
-variable {P : Perm} {s0 s : Streams}
+variable {P : Perm} {s0 s : Streams} (hg : P.gone)
+include hg
 
 -- ===================================================================== recv.rs
 @[grind ←] theorem releaseConnectionCapacity_acc (c : Nat) (u : Bool) (h : Tr P s0 s) :
@@ -36,16 +38,16 @@ variable {P : Perm} {s0 s : Streams}
   unfold Streams.ignoreData; fid_grind
 @[grind ←] theorem recvOpen_acc (k : Nat) (b : Bool) (h : Tr P s0 s) : Tr P s0 (s.recvOpen k b).1 := by
   unfold Streams.recvOpen; fid_grind
-@[grind ←] theorem recvRecvHeaders_acc (k : Nat) (hd : HeadersIn) (hA : P.rpush k) (h : Tr P s0 s) :
+@[grind ←] theorem recvRecvHeaders_acc (k : Nat) (hd : HeadersIn) (hA : RpushAny P k) (h : Tr P s0 s) :
     Tr P s0 (s.recvRecvHeaders k hd).1 := by
   unfold Streams.recvRecvHeaders; fid_fold; fid_grind
-@[grind ←] theorem recvRecvTrailers_acc (k : Nat) (hd : HeadersIn) (hA : P.rpush k) (h : Tr P s0 s) :
+@[grind ←] theorem recvRecvTrailers_acc (k : Nat) (hd : HeadersIn) (hA : P.rpush k (.trailers hd.fields)) (h : Tr P s0 s) :
     Tr P s0 (s.recvRecvTrailers k hd).1 := by
   unfold Streams.recvRecvTrailers; fid_fold; fid_grind
-@[grind ←] theorem recvRecvData_acc (k : Nat) (p : Bytes) (eos : Bool) (pad : Option Nat) (hA : P.rpush k)
+@[grind ←] theorem recvRecvData_acc (k : Nat) (p : Bytes) (eos : Bool) (pad : Option Nat) (hA : P.rpush k (.data p (!eos)))
     (h : Tr P s0 s) : Tr P s0 (s.recvRecvData k p eos pad).1 := by
   unfold Streams.recvRecvData; fid_fold; fid_grind
-@[grind ←] theorem recvRecvPushPromise_acc (k : Nat) (hd : HeadersIn) (hA : P.rpush k) (h : Tr P s0 s) :
+@[grind ←] theorem recvRecvPushPromise_acc (k : Nat) (hd : HeadersIn) (hA : RpushAny P k) (h : Tr P s0 s) :
     Tr P s0 (s.recvRecvPushPromise k hd).1 := by
   unfold Streams.recvRecvPushPromise; fid_fold; fid_grind
 @[grind ←] theorem recvNextIncoming_acc (h : Tr P s0 s) : Tr P s0 s.recvNextIncoming.1 := by
